@@ -246,7 +246,7 @@ pub fn c09(c: &Collector, g: &mut Guard) {
         let seeds = small_bfs_seeds(c, gg);
         let st = bfs(c, &seeds, depth, 4_000_000, mixed_alphabet, |c, t, local| {
             local.count("bfs_judged");
-            invariant(c, "C09", "E2.bfs.mixed", t, local)
+            invariant(c, "C09", "E2.bfs.mixed", t, local) && expand_ok(t)
         });
         c.bound(&format!("bfs_levels_{}x{}", gg.0, gg.1), json!(st.levels));
     }
